@@ -48,7 +48,7 @@ Definition pod_eqb (a b : pod) : bool :=
 Definition err_eqb (a b : err) : bool :=
   match a, b with
   | ETaints, ETaints | EReqs, EReqs | EFilter, EFilter | EMinValues, EMinValues
-  | EPorts, EPorts | EResources, EResources => true
+  | EPorts, EPorts | EResources, EResources | EVolumes, EVolumes | EVolReqs, EVolReqs => true
   | _, _ => false
   end.
 
@@ -63,12 +63,14 @@ Inductive case :=
 | CPodReqs (all : bool) (p : pod) (obs : reqs)                              (* NewPodRequirements / NewStrictPodRequirements *)
 | CRelax (tol_pns : bool) (p : pod) (obs : list pod)                        (* pod after each successful Preferences.Relax *)
 | CNewEx (available daemon_total ds_scheduled remaining : rl)               (* NewExistingNode remaining resources *)
+| CVolLimits (limits : list (string * Z)) (used new : vols) (exceeds : bool) (* VolumeUsage.ExceedsLimits != nil *)
+| CVolAlts (volumes : list (bool * list term)) (obs : list reqs)            (* VolumeTopology.GetRequirements *)
 | CNC (wk : list string) (cat : list itype) (all : bool) (n0 : nclaim) (steps : list (pod * bool * nobs))
 | CEX (all : bool) (n0 : enode) (steps : list (pod * eobs))
 | CFilter (wk : list string) (cat : list itype) (elig : list string) (r : reqs) (who : string) (ports : list hp)
           (groups : list dgroup) (total : rl) (relax : bool) (names : list string) (unsat : list (string * Z)) (e : option bool)
 | BNew (wk : list string) (r : reqs) (ts : list taint) (opts : list lopt) (pods daemons : list pod)
-| BEx (labels : list (string * string)) (ts : list taint) (alloc : rl) (bound placed daemons : list pod).
+| BEx (labels : list (string * string)) (ts : list taint) (alloc : rl) (vlimits : list (string * Z)) (bound placed daemons : list pod).
 
 Definition tag (ok : bool) (t : string) : list string := if ok then [] else [t].
 
@@ -118,6 +120,8 @@ Definition check_case (c : case) : list string :=
   | CPodReqs all p obs => tag (reqs_eqb (pod_reqs all p) obs) "corr:NewPodRequirements"
   | CRelax tp p obs => tag (relax_chain tp (S (length obs)) p obs) "corr:Preferences.Relax"
   | CNewEx av dt ds rem => tag (rl_eqb_strict (new_existing_remaining av dt ds) rem) "corr:NewExistingNode.remaining"
+  | CVolLimits limits used new ex => tag (Bool.eqb (exceeds_limits limits used new) ex) "corr:VolumeUsage.ExceedsLimits"
+  | CVolAlts volumes obs => tag (list_eqb reqs_eqb (pod_vol_alts volumes) obs) "corr:VolumeTopology.GetRequirements"
   | CNC wk cat all n0 steps => tag (nc_run wk cat all n0 steps) "corr:NodeClaim.CanAdd/Add"
   | CEX all n0 steps => tag (ex_run all n0 steps) "corr:ExistingNode.CanAdd/Add"
   | CFilter wk cat elig r who ports groups total relax names unsat e =>
@@ -130,8 +134,8 @@ Definition check_case (c : case) : list string :=
            | _, _ => false
            end) "corr:filterInstanceTypesByRequirements"
   | BNew wk r ts opts pods daemons => tag (claim_admissible_b wk r ts opts pods daemons) "oracle:new-nodeclaim-placement-inadmissible"
-  | BEx labels ts alloc bound placed daemons =>
-      tag (existing_admissible_b labels ts alloc bound placed daemons) "oracle:existing-node-placement-inadmissible"
+  | BEx labels ts alloc vlimits bound placed daemons =>
+      tag (existing_admissible_b labels ts alloc vlimits bound placed daemons) "oracle:existing-node-placement-inadmissible"
   end.
 
 Definition check_all (cs : list (Z * case)) : list (Z * string) :=
